@@ -302,7 +302,7 @@ func (p *PX) term(v ssa.Value, fr *pxFrame, st *pxState) *Term {
 				if cell, isCell := p.cellOf(fa.X, fr); isCell {
 					fk := fmt.Sprintf("%s.%d", strings.TrimSuffix(cell, "*"), fa.Field)
 					if t, ok := st.vals[fk]; ok {
-						if p.fieldVerKey(fieldID(fa), st) == p.localFieldVer(fk, st) {
+						if p.fieldVerKey(fieldID(fa), st) == p.localFieldVer(fk, st) || p.w.purelyLocalAddr(fa.X) {
 							return t
 						}
 					} else if whole, ok := st.vals[cell]; ok {
@@ -377,6 +377,10 @@ func (p *PX) term(v ssa.Value, fr *pxFrame, st *pxState) *Term {
 				}
 			}
 			if ia, ok := x.X.(*ssa.IndexAddr); ok {
+				// a whole row of a private local array of structs (pxarrcell.go)
+				if t := p.arrayRowLoad(ia, fr, st); t != nil {
+					return t
+				}
 				// element of a package-level lookup table that is constant after initialisation
 				if t := p.tableLoad(ia, v.Type(), fr, st); t != nil {
 					return t
@@ -777,7 +781,10 @@ func (p *PX) instrs(fr *pxFrame, b *ssa.BasicBlock, from int, st *pxState, k pxC
 		case *ssa.Store:
 			// a whole-struct store advances the versions of all fields of the type: first,
 			// so that the components recorded for a local (splitStruct) carry the new versions
-			p.structStore(x, st)
+			// (a variable nobody else can point to aliases nothing: pxlocalstruct.go)
+			if !p.w.purelyLocalAddr(x.Addr) {
+				p.structStore(x, st)
+			}
 			// local variable cells and symbolic byte sequences
 			if al, ok := x.Addr.(*ssa.Alloc); ok {
 				vt := p.term(x.Val, fr, st)
@@ -805,7 +812,9 @@ func (p *PX) instrs(fr *pxFrame, b *ssa.BasicBlock, from int, st *pxState, k pxC
 			if fa, ok := x.Addr.(*ssa.FieldAddr); ok {
 				vt := p.term(x.Val, fr, st)
 				p.arrayCellStore(fa, vt, fr, st) // a row of a private local array of structs (pxarrcell.go)
-				p.bumpField(fieldID(fa), st)
+				if !p.w.purelyLocalAddr(fa) {
+					p.bumpField(fieldID(fa), st)
+				}
 				if al, isLocal := fa.X.(*ssa.Alloc); isLocal {
 					fk := fmt.Sprintf("%s.%d", p.reg(fr, al), fa.Field)
 					st.vals[fk] = vt
